@@ -27,13 +27,14 @@ type memFS struct {
 	idx  map[string]int
 	log  *evLog
 	// fault/gating
-	mu          sync.Mutex
-	walkFailAt  int    // fail the walk at entry k (1-based; 0 = never)
-	readFailKey string // path whose read fails ...
-	readFailOff int    // ... after this many bytes
-	readSizes   []int  // cyclic schedule of read sizes (0 = whatever fits)
-	readN       int
-	openGate    func(string) // called in Open (may block)
+	mu            sync.Mutex
+	walkFailAt    int           // fail the walk at entry k (1-based; 0 = never)
+	walkFailErrno syscall.Errno // 0: the walk itself returns an error; else: entry k is handed to the callback with this errno
+	readFailKey   string        // path whose read fails ...
+	readFailOff   int           // ... after this many bytes
+	readSizes     []int         // cyclic schedule of read sizes (0 = whatever fits)
+	readN         int
+	openGate      func(string) // called in Open (may block)
 }
 
 func unixTypeBits(t string) uint32 {
@@ -84,6 +85,9 @@ func newMemFS(ents []TreeEntry, log *evLog) *memFS {
 				if e.OpenErr {
 					data, st.Size = nil, 0
 				}
+			case "dir":
+				// a synthetic source may announce directories with a size (a caller-built FS often copies os.FileInfo.Size: 4096)
+				st.Size = int64(e.DirSize)
 			case "symlink":
 				st.Mode = uint32(os.ModeSymlink) | 0777
 				st.Linkname = e.Link
@@ -139,10 +143,17 @@ func (fs *memFS) Walk(ctx context.Context, target string, fn gofs.WalkDirFunc) e
 			return ctx.Err()
 		default:
 		}
+		var walkErr error
 		if fs.walkFailAt != 0 && k+1 >= fs.walkFailAt {
-			return errors.New("verif: injected walk failure")
+			if fs.walkFailErrno == 0 {
+				return errors.New("verif: injected walk failure")
+			}
+			if k+1 == fs.walkFailAt {
+				// as filepath.WalkDir reports a failing lstat / readdir: through the callback, with the entry and an errno
+				walkErr = &os.PathError{Op: "lstat", Path: p, Err: fs.walkFailErrno}
+			}
 		}
-		err := fn(p, &fsutil.DirEntryInfo{Stat: e.st.Clone()}, nil)
+		err := fn(p, &fsutil.DirEntryInfo{Stat: e.st.Clone()}, walkErr)
 		if err == filepath.SkipDir {
 			if e.st.IsDir() {
 				skipPrefix = p + "/"
